@@ -10,6 +10,7 @@ def jobs(tier):
     js.append(D.last_sector_job(Job))
     js.append(D.visit_job(Job))
     js.append(D.volume_read_job(Job))
+    js += D.c01_extra(Job, tier) if hasattr(D, "c01_extra") else []
     for j in D.field_jobs(Job, D.CFG_ASSERT, "thorough") + [D.last_sector_job(Job, D.CFG_ASSERT, "thorough"), D.visit_job(Job, D.CFG_ASSERT, "thorough")]:
         js.append(j)
     return js
